@@ -83,7 +83,19 @@ def groups(tier, seed):
         if label.startswith("L") and i % (50 if tier == "quick" else 400) != 0:
             continue
         out.append(dict(mode="calibrated", label=label, X=X, tier=tier))
+    # behaviour that only exists at scale: block-wise / dtype-boundary code paths (a few large cases)
+    out.append(dict(mode="big", label="big9001", big=[9001, 2, seed], tier=tier))
+    out.append(dict(mode="big", label="big13000", big=[13000, 3, seed], tier=tier))
+    out.append(dict(mode="long-warm", label="warm320", big=[320, 2, seed], tier=tier))
     return out
+
+
+def _big_points(rec):
+    """Deterministic large clustered point set: rec = [n, d, seed]."""
+    n, d, sd = rec
+    rng = np.random.default_rng([int(sd), n, d, 4242])
+    centers = rng.uniform(-20, 20, size=(8, d))
+    return np.round((centers[rng.integers(0, 8, size=n)] + rng.standard_normal((n, d))) * 256) / 256
 
 
 def _inits(N):
@@ -96,6 +108,17 @@ def _nforms(N):
 
 
 def cases(group):
+    if group["mode"] == "big":
+        n, d, sd = group["big"]
+        for ff in (1.0, 0.7):
+            yield dict(mode="explicit", big=group["big"], init=0, legs=[8], ff=ff)
+        return
+    if group["mode"] == "long-warm":
+        # 320 points, warm start from 200 to 300 selections (crosses 255 -> 256 selections)
+        for ff in (1.0, 0.5):
+            yield dict(mode="explicit", big=group["big"], init=0, legs=[200, 300], ff=ff)
+            yield dict(mode="explicit", big=group["big"], init=0, legs=[300], ff=ff)
+        return
     X = group["X"]
     N = len(X)
     if group["mode"] == "explicit":
@@ -179,6 +202,21 @@ def explore_answers(run, n_alt, bound, alts=None):
 
 
 # --------------------------------------------------------------------------------------
+
+
+class LazyD:
+    """Brute-force squared distances computed on demand (columns / element pairs): large point sets."""
+
+    def __init__(self, X):
+        self.X = np.asarray(X, float)
+
+    def __getitem__(self, key):
+        a, b = key
+        if isinstance(a, slice):
+            diff = self.X - self.X[int(b)]
+            return (diff * diff).sum(axis=1)
+        diff = self.X[np.asarray(a)] - self.X[np.asarray(b)]
+        return (diff * diff).sum(axis=1)
 
 
 def _snapshot(s):
@@ -279,9 +317,15 @@ def _fps_reference(X, init, n):
 
 def check(case):
     r = R()
-    X = np.array(case["X"], float)
+    if "big" in case:  # large point sets are generated from their recipe (too large to write out literally)
+        X = _big_points(case["big"])
+    else:
+        X = np.array(case["X"], float)
     N = len(X)
-    D, scale, _ = sel.distance_matrix("VoronoiFPS", "sample", X)
+    if N > 400:
+        D, scale = LazyD(X), float((X * X).sum(axis=1).max())
+    else:
+        D, scale, _ = sel.distance_matrix("VoronoiFPS", "sample", X)
     tol = 1e-9 * scale + 1e-300
     init, legs = case["init"], case["legs"]
     n_final = sel.resolve_n(legs[-1], N)
